@@ -153,7 +153,7 @@ LEAN_TYPE = {'Int': 'Int', 'Str': 'Str', 'Bytes': 'Str', 'Bool': 'Bool', 'TD': '
              'PyDate': 'PyDate', 'PyDateTime': 'PyDateTime', 'PyTime': 'PyTime', 'None': 'Unit', 'StrList': 'List Str',
              'Truth': 'Bool', 'Char': 'Char', 'OptInt': 'Option Int', 'Builder': 'Str', 'IntList': 'List Int',
              'Unbound:Int': 'Option Int', 'D': 'Trig', 'OptD': 'Option Trig', 'TDS': 'Int', 'OptTDS': 'Option Int', 'DList': 'List Trig',
-             'ATList': 'List AT', 'Comp': 'Comp', 'CompList': 'List Comp', 'Fn:Comp:Bool': 'Comp → Bool', 'Object': 'Unit', 'Vals': 'PyVals', 'Val': 'Val', 'ValList': 'List Val',
+             'ATList': 'List AT', 'Comp': 'Comp', 'CompList': 'List Comp', 'Fn:Comp:Bool': 'Comp → Bool', 'Object': 'Unit', 'IV': 'PyIV', 'Vals': 'PyVals', 'Val': 'Val', 'ValList': 'List Val',
              'Store': 'CDict.Store V', 'StepOut': 'CDict.Store V × CDict.Out V', 'V': 'V', 'OptV': 'Option V', 'Msg': 'Unit', 'ExcVal': 'Exc', 'Item': 'PyItem', 'ItemList': 'List PyItem', 'EntryList': 'List Entry'}
 
 
@@ -258,6 +258,10 @@ ALARMS_EXT = {'to_datetime': ('fun', 'to_datetime', ['D'], 'D'), 'normalize_pytz
               'AlarmTime': ('fun', 'mk_alarm_time', ['A', 'D', 'OptD', 'OptD', 'Par'], 'AT'),
               'alarm.REPEAT': ('expr', 'alarm_repeat', ['alarm'], 'Int'),
               'alarm.DURATION': ('expr', 'alarm_duration', ['alarm'], 'OptTDS')}
+SER_LINE = {"getattr(value, 'params', Parameters())": ('expr', 'params_of', ['value'], 'P'),
+            'isinstance(value, bytes)': ('expr', 'is_bytes', ['value'], 'Bool'),
+            "types_factory['inline'](value)": ('expr', 'inline_of', ['value'], 'IV'),
+            'Contentline.from_parts': ('pfun', 'from_parts', ['Str', 'P', 'IV'], 'Str', {'sorted': 'Bool'})}
 TARGETS = [
     Target('prop.py', 'vDuration', 'to_ical', 'vDuration_to_ical', None, {'td': ('td', 'TD')}, {}, False),
     Target('prop.py', 'vUTCOffset', 'to_ical', 'vUTCOffset_to_ical', None, {'td': ('td', 'TD')}, {}, False),
@@ -374,6 +378,17 @@ TARGETS = [
             'self.sorted_keys': ('sfun', 'sorted_keys', 'StrList'), 'self.keys': ('sfun', 'keys', 'StrList'),
             'self[]': ('getitem', 'getitem', 'Vals')}, False, 'ser',
            {'recursive': 'Bool', 'sorted': 'Bool'}, None, 'ItemList', {'properties': 'ItemList'}),
+    # Component.content_line / content_lines / to_ical (C10).  A value of a pair is a `PyIV` (bytes, a value object, a list);
+    # what is read of it (`.params`, is it bytes, the inline wrapper), `Contentline.from_parts` and `Contentlines.to_ical`
+    # are parameters; `Contentlines()` is the empty list (the class derives from list and defines no constructor)
+    Target('cal.py', 'Component', 'content_line', 'Component_content_line', 'Comp', {}, SER_LINE, False, 'ser',
+           {'name': 'Str', 'value': 'IV', 'sorted': 'Bool'}, None, 'Str'),
+    Target('cal.py', 'Component', 'content_lines', 'Component_content_lines', 'Comp', {},
+           dict(SER_LINE, Contentlines=('listctor', 'parser.py', 'StrList')), False, 'ser',
+           {'sorted': 'Bool'}, None, 'StrList', {'contentlines': 'StrList'}),
+    Target('cal.py', 'Component', 'to_ical', 'Component_to_ical', 'Comp', {},
+           dict(SER_LINE, **{'content_lines.to_ical()': ('expr', 'lines_to_ical', ['content_lines'], 'Bytes')}), False, 'ser',
+           {'sorted': 'Bool'}, None, 'Bytes'),
     # ---- the parse loop (C01 / C04 / C09): Component.from_ical.  Everything done with the opaque objects is a parameter
     Target('cal.py', 'Component', 'from_ical', 'Component_from_ical', None, {}, FROM_ICAL, False, 'parse',
            {'st': 'Str', 'multiple': 'Bool'}, None, 'Result:C', {'stack': 'List:C', 'comps': 'List:C'}),
@@ -415,7 +430,7 @@ EXC = {'ValueError': ['valueError'] + list(SUBVALUE.values()), 'OverflowError': 
        'LookupError': ['keyError', 'indexError'], 'ArithmeticError': ['overflowError']}
 
 
-ITER = {'Str': 'Char', 'IntList': 'Int', 'CompList': 'Comp', 'StrList': 'Str', 'ValList': 'Val'}     # what a `for` runs over
+ITER = {'ItemList': 'Item', 'Str': 'Char', 'IntList': 'Int', 'CompList': 'Comp', 'StrList': 'Str', 'ValList': 'Val'}     # what a `for` runs over
 
 
 class NeedMonad(Exception):
@@ -521,6 +536,7 @@ class Fn:
 
     def __init__(self, target, cls_node, func, registry, modnames=None):
         self.t, self.cls, self.func, self.registry = target, cls_node, func, registry
+        self.pairtarget = {}
         self.modnames = modnames or {}
         self.qual = f'{target.file[:-3]}.' + (f'{target.cls}.' if target.cls else '') + target.fn
         self.used = []            # parameters actually referenced, in order of first use
@@ -1218,7 +1234,7 @@ class Fn:
             x = self.expr(fn.value, env)
             if x.type == 'Str':     # ASCII upper-casing (the models' convention; Python's is Unicode)
                 return V(f'(upper {x.lean})', 'Str', None)
-        if isinstance(fn, ast.Attribute) and self.objself:
+        if isinstance(fn, ast.Attribute) and self.objself and callee not in self.t.externals:
             recv = self.expr(fn.value, env) if not (isinstance(fn.value, ast.Name) and fn.value.id in ('cls',)) else None
             if recv is not None and recv.type == 'Comp':
                 if fn.attr == self.t.fn:        # the method itself, on another component: recursion
@@ -1627,7 +1643,7 @@ class Fn:
             env, line = self.bind(env, name, new)
             return self.take_pre() + [line] + self.block(rest, env, tail)
         if isinstance(s, ast.Assign) and len(s.targets) == 1 and isinstance(s.targets[0], ast.Name) \
-                and isinstance(s.value, ast.List) and not s.value.elts:
+                and ((isinstance(s.value, ast.List) and not s.value.elts) or self.is_list_ctor(s.value)):
             declared = (self.t.locals or {}).get(s.targets[0].id)
             kind = declared or self.listkind(s, s.targets[0].id)
             v = V('([] : Str)', 'Builder', None) if kind == 'Builder' else V(f'([] : {lean_type(kind)})', kind, None)
@@ -2002,6 +2018,26 @@ class Fn:
                 return bases == ['ValueError'] or (len(bases) == 1 and self.derives_from_valueerror(bases[0], tree, seen + 1))
         return False
 
+    def is_list_ctor(self, node):
+        """`Cls()` for a class declared ('listctor', file, type): it derives from exactly `list` and defines none of the
+        methods that decide what an empty one holds or how it is appended to / iterated (looked up on every run)"""
+        if not (isinstance(node, ast.Call) and isinstance(node.func, ast.Name) and not node.args and not node.keywords):
+            return False
+        e = self.t.externals.get(node.func.id)
+        if e is None or e[0] != 'listctor':
+            return False
+        if self.modnames.get(node.func.id) != f'icalendar.{e[1][:-3]}.{node.func.id}':
+            self.fail(node, f'`{node.func.id}` is not imported from icalendar.{e[1][:-3]}')
+        tree = X.parse(os.path.join(self.src_dir, e[1]))
+        for c in tree.body:
+            if isinstance(c, ast.ClassDef) and c.name == node.func.id:
+                bad = [st.name for st in c.body if isinstance(st, ast.FunctionDef)
+                       and st.name in ('__init__', '__new__', 'append', '__iter__', '__len__', '__getitem__', 'extend', 'insert')]
+                if [ast.unparse(b) for b in c.bases] != ['list'] or bad:
+                    self.fail(node, f'class {c.name}: bases {[ast.unparse(b) for b in c.bases]}, defines {bad} (expected a plain subclass of list)')
+                return True
+        self.fail(node, f'class {node.func.id} not found in {e[1]}')
+
     def listkind(self, node, name):
         """`name = []`: how is the list used in the whole function"""
         uses = set()
@@ -2035,6 +2071,10 @@ class Fn:
             it, iname, cname = it.args[0], tgt.elts[0].id, tgt.elts[1].id
         elif isinstance(tgt, ast.Name):
             cname = tgt.id
+        elif isinstance(tgt, ast.Tuple) and len(tgt.elts) == 2 and all(isinstance(e, ast.Name) for e in tgt.elts) \
+                and tgt.elts[0].id != tgt.elts[1].id:
+            cname = f'pair{s.lineno}_'        # `for a, b in pairs`: the pair gets a name of its own, a and b are its parts
+            self.pairtarget[cname] = (tgt.elts[0].id, tgt.elts[1].id)
         else:
             self.fail(s, f'loop target `{ast.unparse(tgt)}`')
         if isinstance(it, ast.Call) and isinstance(it.func, ast.Name) and it.func.id == 'range' and 'range' not in self.modnames \
@@ -2049,6 +2089,8 @@ class Fn:
             itv = self.hoist(s, f'PyVals.elems {itv.lean}', 'ValList')
         if not (itv.type in ITER or itv.type.startswith('List:')) or s.orelse:
             self.fail(s, f'`for` over a value of type {itv.type}' if itv.type not in ITER else '`for .. else`')
+        if cname in self.pairtarget and itv.type != 'ItemList':
+            self.fail(s, f'`for {ast.unparse(tgt)}` over a value of type {itv.type} (only a list of pairs (name, value))')
         return self.loop(s, rest, env, tail, iname, cname, itv, None)
 
     def while_(self, s, rest, env, tail):
@@ -2071,7 +2113,7 @@ class Fn:
         if self.loopctx and any(isinstance(n, (ast.Break, ast.Continue, ast.Return)) for st in s.body for n in ast.walk(st)):
             self.fail(s, 'nested loop with break / continue / return')
         pre0 = self.take_pre()
-        targets = {iname, cname} - {None}
+        targets = ({iname, cname} | set(self.pairtarget.get(cname, ()))) - {None}
         asg = self.assigned_env(s.body, env)
         stored = {n.id for st in s.body for n in ast.walk(st) if isinstance(n, ast.Name) and isinstance(n.ctx, ast.Store)}
         asg = [n for n in asg if not (n in targets and n not in stored)]    # `v.attr = x` on the loop variable: local to the iteration
@@ -2227,6 +2269,9 @@ class Fn:
             benv[n] = V(lname(n), slots[n], None)
         if cname:
             benv[cname] = V(lname(cname), (ITER.get(itv.type) or itv.type[5:]) if itv is not None else 'Char', None)
+        if cname in self.pairtarget:
+            benv[self.pairtarget[cname][0]] = V(f'{lname(cname)}.1', 'Str', None)
+            benv[self.pairtarget[cname][1]] = V(f'{lname(cname)}.2', 'IV', None)
         if iname:
             benv[iname] = V(lname(iname), 'Int', None)
         cur = lambda e: [e[n].lean for n in state]   # noqa: E731
